@@ -153,6 +153,14 @@ def stepC16 (_ : Unit) (ws : List String) : Unit × String :=
             let (tk, e) := createRefreshToken c T0 u cl (signedBy16 c.sRefresh)
             s!"exp={showTime16 e} {showToken16 tk}"
         | _, _ => "bad-op"
+    | ["chgemail", uu, q, r] =>
+        -- ChangeEmail: context CONTEXT_CHANGE_EMAIL, sysops not allowed
+        match parseHex uu, parseHex q, parseRaw16 r with
+        | some uu, some q, some raw =>
+            (match emailUserOK c T0 Gen.Token.strGuest uu q raw Gen.Token.contextChangeEmail false false with
+            | some eml => s!"valid eml={toHex eml}"
+            | none => "invalid")
+        | _, _, _ => "bad-op"
     | [op, addr, nf, r] =>
         if op = "auth" ∨ op = "authp" then
           match flag16 addr, nfield16 nf, parseRaw16 r with
@@ -182,13 +190,14 @@ def stepC16 (_ : Unit) (ws : List String) : Unit × String :=
         match parseHex u, parseHex cl, parseHex em, parseHex cx with
         | some u, some cl, some em, some cx => showToken16 (createEmailToken c T0 u cl em cx (signedBy16 c.sEmail))
         | _, _, _, _ => "bad-op"
-    | ["emailuser", uu, q, r, cx, allow, sys] =>
-        match parseHex uu, parseHex q, parseRaw16 r, parseHex cx, flag16 allow, flag16 sys with
-        | some uu, some q, some raw, some cx, some al, some sy =>
-            (match emailUserOK c T0 Gen.Token.guest uu q raw cx al sy with
-            | some eml => s!"valid eml={toHex eml}"
+    | ["setidemail", uu, q, r, sys] =>
+        -- SetIDEmail: context CONTEXT_SET_ID_EMAIL, sysops allowed; <sys> is the answer of bbs.IsSysop for the requester
+        match parseHex uu, parseHex q, parseRaw16 r, flag16 sys with
+        | some uu, some q, some raw, some sy =>
+            (match emailUserOK c T0 Gen.Token.strGuest uu q raw Gen.Token.contextSetIDEmail true sy with
+            | some _ => "valid"
             | none => "invalid")
-        | _, _, _, _, _, _ => "bad-op"
+        | _, _, _, _ => "bad-op"
     | _ => "bad-op"
   ((), out)
 
